@@ -3,8 +3,12 @@
 # against the quick check of the property it was written for; prints one line per change.
 cd "$(dirname "$0")/.."
 PAT="${1:-}"
+n=0
 for d in seeded/*/; do
   id=$(basename "$d")
+  # LANES=<k> LANE=<i>: take every k-th change, starting with the i-th (parallel regressions on separate copies)
+  n=$((n+1))
+  [ -n "${LANES:-}" ] && [ $(( n % LANES )) -ne "${LANE:-0}" ] && continue
   [ -n "$PAT" ] && [[ "$id" != *$PAT* ]] && continue
   # SKIP_DONE=<log>: leave out the changes that already have a line in that log (resume an interrupted regression)
   [ -n "${SKIP_DONE:-}" ] && grep -q "^$id :: " "$SKIP_DONE" 2>/dev/null && continue
